@@ -2,6 +2,8 @@
 #include "driver_ext.h"
 #include <rbdl/Constraints.h>
 #include <rbdl/rbdl_utils.h>
+#include "luamodel/luamodel.h"
+extern bool g_luamode;
 #include <cmath>
 #include <cstring>
 #include <algorithm>
@@ -45,6 +47,25 @@ bool run_curves(Ctx &C, const std::string &cmd, Toks &T, long seq);
 bool run_ext(Ctx &C, const std::string &cmd, Toks &T, long seq) {
   Model &m = *C.model;
   if (run_curves(C, cmd, T, seq)) return true;
+  if (cmd == "luamode") { g_luamode = true; return true; }
+  if (cmd == "luadecoy") {   // another description loaded earlier in the same process
+    std::string path = T.str(); Model tmp;
+    try { Addons::LuaModelReadFromFile(path.c_str(), &tmp, false); } catch (std::exception &e) {}
+    return true;
+  }
+  if (cmd == "luaload") {
+    std::string path = T.str(); bool withcons = T.more() && T.str() == "withcons";
+    try {
+      if (withcons) {
+        std::vector<ConstraintSet> sets(1); std::vector<std::string> names(1, "cs");
+        Addons::LuaModelReadFromFileWithConstraints(path.c_str(), &m, sets, names, false);
+        E(C).cs = sets[0]; E(C).bound = true;
+      } else Addons::LuaModelReadFromFile(path.c_str(), &m, false);
+      out.begin(seq, "luaload"); out.s("ok"); out.end();
+    } catch (std::exception &e) { out.begin(seq, "luaload"); out.s("throw"); out.end(); }
+    return true;
+  }
+  if ((cmd == "contact" || cmd == "loop" || cmd == "loopauto") && g_luamode) return true;
   if (cmd == "csolver") { long k = T.integer(); E(C).cs.linear_solver = (LinearSolver)k; return true; }
   if (cmd == "contact") {
     unsigned id = C.ref(T.str()); Vector3d p = T.v3(), n = T.v3();
